@@ -29,6 +29,7 @@ def run_property(prop: str, tier: str, repo: str, seed: int = 0, only_rules=None
     try:
         program = Program(repo)
         ctx = Context(program, tier, seed)
+        anchor_errors = []
         for a in analyses:
             mine = [r for r in a.emits if prop in tables.serves(r)]
             if only_rules is not None:
@@ -37,7 +38,12 @@ def run_property(prop: str, tier: str, repo: str, seed: int = 0, only_rules=None
                 continue
             n0 = len(ctx.obs)
             ctx.current_rules = mine
-            a.func(ctx)
+            try:
+                a.func(ctx)
+            except AnalysisError as e:
+                # an anchor of this analysis vanished: the other analyses of the property still run - a definite violation found by one of
+                # them stands (exit 1); without one the run ends as ANALYSIS-ERROR (exit 2), never as a pass
+                anchor_errors.append("%s: %s" % (a.name, e))
             # keep only obligations of rules that serve this property
             kept = [o for o in ctx.obs[n0:] if o.rule in mine]
             del ctx.obs[n0:]
@@ -53,6 +59,7 @@ def run_property(prop: str, tier: str, repo: str, seed: int = 0, only_rules=None
             fl = tables.FLOORS.get(r, 1)
             if counts.get(r, 0) < fl:
                 out.floors_missing.append("%s: %d instance(s) found, floor %d" % (r, counts.get(r, 0), fl))
+        out.floors_missing = anchor_errors + out.floors_missing
         if out.floors_missing:
             # a floor guards against a *vacuous pass*.  When another rule of the property reports a definite, unlisted violation
             # on the same tree, that report stands (exit 1); the missing instances are mentioned, not turned into exit 2.
